@@ -2,15 +2,15 @@ SPECIFICATION Spec
 CONSTANTS
   MaxB = 2
   NPs = {1}
-  MaxPost = 1
-  Reserve = FALSE
+  MaxPost = 0
+  Reserve = TRUE
   Titles <- TitleClasses
   Stack = 64
   WorkList = FALSE
-  DestSpellings = {"none"}
+  DestSpellings = {"none", "tree-direct", "kids-ref", "names-ref", "d-ref", "value-array-ref", "old-direct", "old-names-key", "old-refs"}
   FollowRefs = FALSE
   IdLimits = {1000000}
   CheckedIds = FALSE
   Emit = FALSE
-PROPERTIES Reserved
+INVARIANTS RefinesToc
 CHECK_DEADLOCK FALSE
